@@ -416,3 +416,17 @@ PROPS = {
                         "callers keep the discipline of T15.7 (F19 is the known finding for the others)"],
     },
 }
+
+
+# ---- plug-in units: tools/props_<unit>.py may define EXTRA = {"Cxx": {"runs": [...], "rule": "...", "trusted_base": [...], "assumptions": [...]}}
+# (one file per unit, so that units developed in parallel do not edit the same lines of this file)
+import glob as _glob, importlib as _importlib, os as _os, sys as _sys
+_sys.path.insert(0, _os.path.dirname(_os.path.abspath(__file__)))
+for _f in sorted(_glob.glob(_os.path.join(_os.path.dirname(_os.path.abspath(__file__)), "props_*.py"))):
+    _m = _importlib.import_module(_os.path.basename(_f)[:-3])
+    for _pid, _extra in getattr(_m, "EXTRA", {}).items():
+        _p = PROPS[_pid]
+        _p["runs"] = list(_p["runs"]) + list(_extra.get("runs", []))
+        _p["rule"] = _p["rule"] + " " + _extra.get("rule", "")
+        for _k in ("trusted_base", "assumptions"):
+            _p[_k] = list(_p.get(_k, [])) + list(_extra.get(_k, []))
